@@ -688,12 +688,25 @@ pub(crate) fn ordinary_has_property(
 
         context.slot().set_not_cacheable_if_already_prototype();
         context.slot().attributes |= SlotAttributes::PROTOTYPE;
+        set_not_cacheable_if_unique_shape(obj, context);
 
         parent
             // 5. If parent is not null, then
             // a. Return ? parent.[[HasProperty]](P).
             // 6. Return false.
             .map_or(Ok(false), |obj| obj.__has_property__(key, context))
+    }
+}
+
+/// A unique shape is mutated in place when a property is added to it, so an inline cache entry
+/// for a property that was found in the prototype of an object with a unique shape could not be
+/// invalidated by a later own property with the same key: such lookups are not cached.
+fn set_not_cacheable_if_unique_shape(
+    obj: &JsObject,
+    context: &mut InternalMethodPropertyContext<'_>,
+) {
+    if obj.borrow().shape().is_unique() {
+        context.slot().attributes |= SlotAttributes::NOT_CACHEABLE;
     }
 }
 
@@ -718,6 +731,7 @@ pub(crate) fn ordinary_get(
             if let Some(parent) = obj.__get_prototype_of__(context)? {
                 context.slot().set_not_cacheable_if_already_prototype();
                 context.slot().attributes |= SlotAttributes::PROTOTYPE;
+                set_not_cacheable_if_unique_shape(obj, context);
 
                 // c. Return ? parent.[[Get]](P, Receiver).
                 parent.__get__(key, receiver, context)
@@ -771,6 +785,7 @@ pub(crate) fn ordinary_try_get(
             if let Some(parent) = obj.__get_prototype_of__(context)? {
                 context.slot().set_not_cacheable_if_already_prototype();
                 context.slot().attributes |= SlotAttributes::PROTOTYPE;
+                set_not_cacheable_if_unique_shape(obj, context);
 
                 // c. Return ? parent.[[Get]](P, Receiver).
                 parent.__try_get__(key, receiver, context)
